@@ -33,6 +33,7 @@ text, checked structurally on every result (see check_result).
 """
 import json
 import math
+import itertools
 import re
 
 from mc.gen import values as V
@@ -128,6 +129,15 @@ RETURNS = {
     "huge": 10 ** 400,
     "bytes": b"\xff\x00ab",
     "set": {1},
+    # non-finite numbers that are NOT float instances (what float() accepts): numeric strings, decimals
+    "str-nan": "nan",
+    "str-neg-inf": "-Infinity",
+    "str-overflow": "1e999",
+    "str-number": "2.5",
+    "decimal-nan": __import__("decimal").Decimal("NaN"),
+    "decimal-inf": __import__("decimal").Decimal("Infinity"),
+    "decimal": __import__("decimal").Decimal("2.5"),
+    "bool": True,
 }
 
 
@@ -927,6 +937,11 @@ def cases(tier):
             if re.search(r"\b%s\b" % name, doc):
                 for fault in ("err", "err-sub", "err-shared", "err-path", "null", "null-item"):
                     yield {"k": "fault-all", "text": doc, "name": name, "fault": fault}
+    # ONE exception instance raised by two fields with ANOTHER failure registered in between (shared, other, shared)
+    for doc in VALID_FOR_FAULTS:
+        for k1, k2, k3 in itertools.combinations(range(7), 3):
+            for mid in ("err", "null-item"):
+                yield {"k": "fault", "text": doc, "at": [k1, k2, k3], "faults": ["err-shared", mid, "err-shared"]}
     for leaf, doc in LEAVES:
         for r in sorted(RETURNS):
             yield {"k": "ret", "text": doc, "leaf": leaf, "ret": r}
